@@ -198,7 +198,7 @@ structure CaseSt where
   cfg : Cfg := { mainnet := false, bridge := [], gov := "" }
   ti : TiTable := []
   st : WState := {}
-  spec : Option String := none      -- first Spec failure "<clause> <text>"
+  specs : List String := []         -- Spec failures "<clause> <text>", the first one of each clause, in order of appearance
   diff : Option String := none      -- first model/implementation difference
   fwdAll : List String := []        -- everything the implementation forwarded so far
   faulted : Bool := false           -- an API error was injected somewhere in this case
@@ -211,6 +211,7 @@ structure CaseSt where
   implAlive : Bool := true              -- the implementation's loops are running (no line reported exit=1 since the last start)
   lost : List (Unconf × Bool) := []     -- served in a page answer of a round that delivered nothing while the watcher carried on; not delivered since
   reobsFwd : List String := []          -- what re-observation requests of this life handed to the signer
+  dipNote : String := ""                -- a count poll of this life answered lower than the next unfetched index (for the verdict texts)
 
 structure St where
   c : CaseSt := {}
@@ -227,7 +228,13 @@ structure St where
 
 /-- Every Spec clause is evaluated on the implementation's own results and the node's answers only (never on the
 model's state), so a Spec failure is recorded whether or not the tie broke earlier in the case. -/
-def CaseSt.addSpec (c : CaseSt) (s : String) : CaseSt := if c.spec.isSome then c else { c with spec := some s }
+def clauseOf (s : String) : String := (s.splitOn " ").headD ""
+
+/-- One verdict line per clause and case: the statements of C08, C09, C11 (and C04, C17) overlap on these cases, each check reports the
+clauses of its own property, so a failure of one property must not hide the failure of another in the same case. -/
+def addClause (l : List String) (s : String) : List String := if l.any (fun t => clauseOf t == clauseOf s) then l else l ++ [s]
+
+def CaseSt.addSpec (c : CaseSt) (s : String) : CaseSt := { c with specs := addClause c.specs s }
 def CaseSt.addDiff (c : CaseSt) (s : String) : CaseSt := if c.diff.isSome then c else { c with diff := some s }
 
 def flush (st : St) : St × List String :=
@@ -235,17 +242,20 @@ def flush (st : St) : St × List String :=
   else
     let c := st.c
     let st := { st with c := {}, n := st.n + 1 }
-    match c.spec, c.diff with
-    | some s, _ => (st, [s!"spec {c.id} {s}"])
-    | none, some d => (st, [s!"diff {c.id} {d}"])
-    | none, none => ({ st with nOk := st.nOk + 1 }, [s!"ok {c.id}"])
+    match c.specs, c.diff with
+    | s :: rest, _ => (st, (s :: rest).map fun s => s!"spec {c.id} {s}")
+    | [], some d => (st, [s!"diff {c.id} {d}"])
+    | [], none => ({ st with nOk := st.nOk + 1 }, [s!"ok {c.id}"])
+
+def singleL (st : St) (id : String) (specs : List String) (diff : Option String) : St × List String :=
+  let st := { st with n := st.n + 1 }
+  match specs.foldl addClause [], diff with
+  | s :: rest, _ => (st, (s :: rest).map fun s => s!"spec {id} {s}")
+  | [], some d => (st, [s!"diff {id} {d}"])
+  | [], none => ({ st with nOk := st.nOk + 1 }, [s!"ok {id}"])
 
 def single (st : St) (id : String) (spec : Option String) (diff : Option String) : St × List String :=
-  let st := { st with n := st.n + 1 }
-  match spec, diff with
-  | some s, _ => (st, [s!"spec {id} {s}"])
-  | none, some d => (st, [s!"diff {id} {d}"])
-  | none, none => ({ st with nOk := st.nOk + 1 }, [s!"ok {id}"])
+  singleL st id spec.toList diff
 
 /-! ## direct calls -/
 
@@ -302,7 +312,7 @@ def doHconf (st : St) (id : String) (fs : List String) : St × List String :=
           | none => some "forwarded-altered unparsable publication"
           | some pp =>
             let cands := entries.filter fun c => showPub (pubOf c) == p
-            if cands.isEmpty then some s!"forwarded-altered {p} corresponds to no confirmed event{describeAltered p (entries.map fun c => (s!"event {c.1.ev.id} (sequence {c.1.msg.seq}, block timestamp {c.2.ts}, position {c.1.ev.id} of the batch)", pubOf c))}"
+            if cands.isEmpty then some s!"forwarded-altered {p} corresponds to no confirmed event{describeAltered p (entries.map fun c => (s!"event {c.1.ev.id} (sequence {c.1.msg.seq}, block timestamp {c.2.ts}, position {c.1.ev.id} of the batch)", pubOf c))}{match kvB fs "mainnet" with | some mn => s!" [pending events made by toUnconfirmedEvent of a Watcher with isMainnet = {mn}]" | none => ""}"
             else if pp.emitter ≠ bridge then some s!"not-token-bridge forwarded a message whose sender {toHex pp.emitter} is not the token bridge"
             else if !(cands.any fun c => c.1.ev.idx == 0) then some s!"event-index forwarded an event with a non-zero event index"
             else if count p impl > cands.length then some s!"forwarded-twice {p}"
@@ -329,6 +339,67 @@ def doTinfo (st : St) (id : String) (fs : List String) : St × List String :=
                 else if splitList reqs "," ≠ expReqs then some s!"GetTokenInfo requests model={expReqs} impl={reqs}" else none
     single st id spec diff
   | _, _, _, _, _ => single st id none (some "unparsable tinfo line")
+
+/-- an event as the implementation delivered it: `bh;tx;idx;conv` -/
+def parseUev (s : String) : Option Unconf :=
+  match s.splitOn ";" with
+  | [bh, tx, idx, conv] => do
+    let idx ← parseInt idx; let m ← parseMsg conv
+    pure ⟨{ id := 0, block := bh, tx := tx, idx := idx, contract := "-", conv := some m }, m⟩
+  | _ => none
+
+/-- log position of a delivered event the node never served (no page answer of the tick contains it) -/
+def unknownId : Nat := 1000000000
+
+/-- The fetch loop hands events on without their log position.  Each delivery is attributed to one event the node served in the
+same round: first the deliveries that ARE the conversion of a served event (same block, transaction, event index, and the
+event's own message), then what is left to the remaining served events of the same block, transaction and index, in order —
+a delivery of that second kind is the watcher's rendering of that event with values other than the event's fields. -/
+def attributeTo (served : List Event) (us : List Unconf) : List (Unconf × Option Event) :=
+  let p1 := us.foldl (fun (acc : List (Unconf × Option Event) × List Event) u =>
+      match acc.2.find? (fun e => e.block == u.ev.block && e.tx == u.ev.tx && e.idx == u.ev.idx && e.conv == some u.msg) with
+      | some e => (acc.1 ++ [(u, some e)], acc.2.erase e)
+      | none => (acc.1 ++ [(u, none)], acc.2)) ([], served)
+  (p1.1.foldl (fun (acc : List (Unconf × Option Event) × List Event) ue =>
+      match ue.2 with
+      | some _ => (acc.1 ++ [ue], acc.2)
+      | none =>
+        match acc.2.find? (fun e => e.block == ue.1.ev.block && e.tx == ue.1.ev.tx && e.idx == ue.1.ev.idx) with
+        | some e => (acc.1 ++ [(ue.1, some e)], acc.2.erase e)
+        | none => (acc.1 ++ [ue], acc.2)) ([], p1.2)).1
+
+/-- What later Spec evaluation refers to as "the event delivered to the event loop": the log position of the served event and the
+EVENT's own message (the generator's ground truth), not the watcher's rendering of it — a message handed to the signer is judged
+against the event it was made from. -/
+def groundTruth (a : List (Unconf × Option Event)) : List Unconf :=
+  a.map fun (u, oe) =>
+    match oe with
+    | some e =>
+      (match e.conv with
+       | some m => ⟨{ u.ev with id := e.id }, m⟩
+       | none => { u with ev := { u.ev with id := e.id } })
+    | none => { u with ev := { u.ev with id := unknownId } }
+
+def msgDiffs (d m : Msg) : List String :=
+  (if d.sender ≠ m.sender then [s!"sender {toHex m.sender} -> {toHex d.sender}"] else []) ++
+  (if d.targetChain ≠ m.targetChain then [s!"targetChain {m.targetChain} -> {d.targetChain}"] else []) ++
+  (if d.nonce ≠ m.nonce then [s!"nonce {m.nonce} -> {d.nonce}"] else []) ++
+  (if d.seq ≠ m.seq then [s!"sequence {m.seq} -> {d.seq}"] else []) ++
+  (if d.cl ≠ m.cl then [s!"consistencyLevel {m.cl} -> {d.cl}"] else []) ++
+  (if d.payload ≠ m.payload then ["payload"] else [])
+
+/-- C11 "is decoded into a message with exactly those values", at the point where the watcher turns a fetched event into a pending
+one (`handleUnconfirmedEvents` → `toUnconfirmedEvent`): the pending message must carry the event's fields. -/
+def alteredSpec (who : String) (a : List (Unconf × Option Event)) (note : String) : Option String :=
+  a.findSome? fun (u, oe) =>
+    match oe with
+    | some e =>
+      (match e.conv with
+       | some m =>
+         if m == u.msg then none else
+         some s!"delivered-altered {who} turned the event at position {e.id} (tx {e.tx}, sequence {m.seq}) into a pending message that differs from the event's fields in {msgDiffs u.msg m} (event value -> pending value): that is what the confirmation rules are applied to and what is handed to the signer{note}"
+       | none => none)
+    | none => none
 
 /-- Spec on a delivered batch: nothing well-formed is lost, nothing with mismatching metadata is let through. -/
 def batchSpec (tbl : TiTable) (evs : List Event) (impl : List String) : Option String :=
@@ -363,9 +434,11 @@ def doHunconf (st : St) (id : String) (fs : List String) : St × List String :=
       if res = "panic" then some (if lastIsTi reqs then "metadata-call-panic handleUnconfirmedEvents panicked inside the token metadata call" else "watcher-panic handleUnconfirmedEvents panicked")
       else if res = "err" then some "malformed-event-ends-watcher handleUnconfirmedEvents returned an error (sent to errC: the watcher ends and the page is lost)"
       else batchSpec tbl evs impl
+    let mainnet := (kvB fs "mainnet").getD false
+    let altered := if res = "ok" then alteredSpec s!"handleUnconfirmedEvents (Watcher with isMainnet = {mainnet})" (attributeTo evs (impl.filterMap parseUev)) "" else none
     let diff := if model ≠ impl then some s!"handleUnconfirmedEvents model={model} impl={impl}"
                 else if reqs ≠ tiReqsOfEvents tbl evs then some s!"handleUnconfirmedEvents requests model={tiReqsOfEvents tbl evs} impl={reqs}" else none
-    single st id spec diff
+    singleL st id (altered.toList ++ spec.toList) diff
   | _, _, _, _, _ => single st id none (some "unparsable hunconf line")
 
 /-- `_fetchHeight` while the poller is enabled: every polled height is passed on (changed or not), an error is reported. -/
@@ -420,6 +493,7 @@ structure ReobsEval where
   diff : Option String
   nFwd : Nat
   owed : Option String
+  requeued : Option String := none   -- the watcher's own request queue held requests the harness (the dispatcher) had not put there
 
 def evalReobs (fs : List String) : ReobsEval :=
   match kvB fs "mainnet", kvHex fs "bridge", kv fs "gov", kvNat fs "chain", kvHex fs "hash", kv fs "status", kv fs "evs",
@@ -486,13 +560,20 @@ def evalReobs (fs : List String) : ReobsEval :=
             | _, _ => none
           due.find? fun p => count p impl < count p due
         | _, _, _ => none
-      { spec := spec, diff := diff, nFwd := impl.length, owed := owed }
+      -- C17 "forwarded ... at most once per (chain, transaction) within the suppression window", observed where the statement
+      -- observes it: on the watcher's request queue.  The harness plays the dispatcher: it put this one request on the queue
+      -- (and, behind it, a sentinel request that is not listed); `stray` is what the queue held once the loop had finished with it.
+      let stray := splitList ((kv fs "stray").getD "-") ","
+      let requeued : Option String :=
+        if stray.isEmpty then none else
+        some s!"reobs-request-requeued the dispatcher forwarded ONE request ({chain}, {tx}) to the Alephium watcher; after the watcher had taken it off its request queue and handled it (node requests: {reqs.take 6}), {stray.length} request(s) the dispatcher never sent were on that queue: {stray.take 4} (chain:transaction) — the pair crosses the watcher's queue again inside the suppression window{if reqs.any (fun r => r.endsWith ">e") then ", put back by the watcher itself while a node request fails" else ""}"
+      { spec := spec, diff := diff, nFwd := impl.length, owed := owed, requeued := requeued }
     | _, _, _, _, _, _ => { spec := none, diff := some "unparsable reobs line (2)", nFwd := 0, owed := none }
   | _, _, _, _, _, _, _, _, _, _ => { spec := none, diff := some "unparsable reobs line", nFwd := 0, owed := none }
 
 def doReobs (st : St) (id : String) (fs : List String) : St × List String :=
   let r := evalReobs fs
-  let (st, out) := single st id r.spec r.diff
+  let (st, out) := singleL st id (r.requeued.toList ++ r.spec.toList) r.diff
   ({ st with reobsFwd := st.reobsFwd + r.nFwd }, out)
 
 /-! ## one watcher life -/
@@ -541,26 +622,7 @@ def doWinit (st : St) (id : String) (fs : List String) : St × List String :=
     ({ st with c := c }, out)
   | _, _, _, _, _ => ({ st with c := ({ id := id, active := true } : CaseSt).addDiff "unparsable winit line" }, out)
 
-/-- an event as the implementation delivered it: `bh;tx;idx;conv` -/
-def parseUev (s : String) : Option Unconf :=
-  match s.splitOn ";" with
-  | [bh, tx, idx, conv] => do
-    let idx ← parseInt idx; let m ← parseMsg conv
-    pure ⟨{ id := 0, block := bh, tx := tx, idx := idx, contract := "-", conv := some m }, m⟩
-  | _ => none
-
 def track (c : CaseSt) (us : List Unconf) : CaseSt := { c with tracked := c.tracked ++ us.map (·, true) }
-
-/-- log position of a delivered event the node never served (no page answer of the tick contains it) -/
-def unknownId : Nat := 1000000000
-
-/-- The fetch loop delivers events without their log position; the position is recovered from the page answers of the same tick
-(same block, transaction, event index and converted message; each served event is used once). -/
-def attachIds (served : List Event) (us : List Unconf) : List Unconf :=
-  (us.foldl (fun (acc : List Unconf × List Event) u =>
-      match acc.2.find? (fun e => e.block == u.ev.block && e.tx == u.ev.tx && e.idx == u.ev.idx && e.conv == some u.msg) with
-      | some e => (acc.1 ++ [{ u with ev := { u.ev with id := e.id } }], acc.2.erase e)
-      | none => (acc.1 ++ [{ u with ev := { u.ev with id := unknownId } }], acc.2)) ([], served)).1
 
 /-- Delivered events are tracked per position of the governance contract's event log: an event that is fetched and delivered
 again (by a later incarnation of the watcher, say) is still ONE fetched event — it justifies one forward, and it is owed from
@@ -572,15 +634,42 @@ def trackFetched (c : CaseSt) (us : List Unconf) : CaseSt :=
       { c with tracked := c.tracked.map fun t => if t.1.ev.id == u.ev.id then (t.1, true) else t }
     else { c with tracked := c.tracked ++ [(u, true)] }) c
 
+/-- `wbatch`: a page handed to the event loop without the fetch loop — through the watcher's own `handleUnconfirmedEvents`
+(`evs`, what came out is `out`), except for events the production route can never deliver but the handler guards against (event
+index ≠ 0: `direct`, built by the harness and appended). -/
 def doWbatch (st : St) (fs : List String) : St × List String :=
   let c := st.c
-  match (kv fs "evs").bind parseEvs >>= toUnconfs, kvB fs "en" with
-  | some us, some en =>
-    let s' := stepBatch c.st us
-    let c := track { c with st := s' } us
+  match (kv fs "evs").bind parseEvs, (kv fs "direct").bind parseEvs >>= toUnconfs, kvB fs "en", kv fs "out", kv fs "reqs", kv fs "res" with
+  | some evs, some direct, some en, some out, some reqs, some res =>
+    let ans := tiOracle c.ti
+    let reqs := splitList reqs ","
+    let impl := splitList out ","
+    let modelUs := handleUnconfirmed ans evs
+    let s' := stepBatch c.st (modelUs ++ direct)
+    let c :=
+      if res = "panic" then c.addSpec (if lastIsTi reqs then "metadata-call-panic handleUnconfirmedEvents panicked inside the token metadata call" else "watcher-panic handleUnconfirmedEvents panicked")
+      else if res = "err" then c.addSpec "malformed-event-ends-watcher handleUnconfirmedEvents returned an error (sent to errC: the watcher ends and the page is lost)"
+      else match batchSpec c.ti evs impl with | some s => c.addSpec s | none => c
+    let attributed := attributeTo evs (impl.filterMap parseUev)
+    let c := if res ≠ "ok" then c else match alteredSpec "handleUnconfirmedEvents (-> toUnconfirmedEvent)" attributed c.note with
+             | some s => c.addSpec s | none => c
+    let c := if res ≠ "ok" then c
+             else if modelUs.map showUnconf ≠ impl then c.addDiff s!"handleUnconfirmedEvents model={modelUs.map showUnconf} impl={impl}"
+             else if reqs ≠ tiReqsOfEvents c.ti evs then c.addDiff s!"handleUnconfirmedEvents requests model={tiReqsOfEvents c.ti evs} impl={reqs}" else c
+    let c := track { c with st := s' } (groundTruth attributed ++ direct)
     let c := if s'.enabled ≠ en then c.addDiff s!"block poller enabled after batch: model={s'.enabled} impl={en}" else c
     ({ st with c := c }, [])
-  | _, _ => ({ st with c := c.addDiff "unparsable wbatch line" }, [])
+  | _, _, _, _, _, _ => ({ st with c := c.addDiff "unparsable wbatch line" }, [])
+
+/-- Node requests of the re-observation path (`status:` / `txev:`) in the log of a fetch tick or a height tick: the harness serves
+re-observation requests one at a time and only while the other loops are parked, so such requests were made by a loop that works
+on a request nobody handed it.  They are taken out of the tick's log (the tick is judged on its own requests) and reported. -/
+def splitReobsTraffic (c : CaseSt) (reqs : List String) : CaseSt × List String :=
+  let isRe := fun (r : String) => r.startsWith "status:" || r.startsWith "txev:"
+  if reqs.any isRe then
+    (c.addDiff s!"node requests of the re-observation path while no re-observation request was being served: {(reqs.filter isRe).take 4} ({(reqs.filter isRe).length} in this line)",
+     reqs.filter fun r => !isRe r)
+  else (c, reqs)
 
 /-- page log entry `page:<start>><next|e|spin>` -/
 def parsePageReq (r : String) : Option (Int × Option Int) :=
@@ -606,7 +695,7 @@ def doWtick (st : St) (fs : List String) : St × List String :=
   | some evs, some reqs, some out, some exit, some en =>
     let spin := (kvB fs "spin").getD false
     let pan := (kvB fs "panic").getD false
-    let reqs := splitList reqs ","
+    let (c, reqs) := splitReobsTraffic c (splitList reqs ",")
     let nonTi := reqs.filter fun r => !r.startsWith "ti:"
     let pagesRaw := nonTi.filterMap parsePageReq
     let pages := attachEvents pagesRaw evs
@@ -651,7 +740,7 @@ def doWtick (st : St) (fs : List String) : St × List String :=
         else if !exit && pagesRaw.isEmpty && (match cnt, c.implFrom with | some cn, some f => decide (cn > f) | _, _ => false) then
           c.addSpec s!"fetch-stalled the count ({cnt.getD 0}) is ahead of the next unfetched index ({c.implFrom.getD 0}) but the tick requested no page"
         else if firstStart.isSome && c.implFrom.isSome && firstStart ≠ c.implFrom && (c.implFromAlt.isNone || firstStart ≠ c.implFromAlt) then
-          c.addSpec s!"page-gap-or-overlap first page requested at {firstStart.getD 0}, but the previous tick ended at nextStart {c.implFrom.getD 0}"
+          c.addSpec s!"page-gap-or-overlap first page requested at {firstStart.getD 0}, but the previous tick ended at nextStart {c.implFrom.getD 0}{c.dipNote}"
         else if gap then
           c.addSpec s!"page-gap-or-overlap page requests do not continue at the previous nextStart: {nonTi}"
         else match implOut with
@@ -672,8 +761,16 @@ def doWtick (st : St) (fs : List String) : St × List String :=
         else if s'.enabled ≠ en then c.addDiff s!"block poller enabled after tick: model={s'.enabled} impl={en}"
         else c
       let lastNext := (pagesRaw.filterMap (·.2)).getLast?
+      -- the count moved backwards: remembered for the texts of later verdicts (how the watcher reacts is judged by what it fetches and forwards)
+      let c := match cnt, c.implFrom with
+        | some cn, some f => if cn < f && c.dipNote.isEmpty then
+            { c with dipNote := s!" [earlier in this life a count poll answered {cn} while the next unfetched index was {f}: the event count had moved backwards{if pagesRaw.isEmpty then ", and the watcher requested no page in that tick" else ""}]" } else c
+        | _, _ => c
       -- what the implementation itself delivered is what the later Spec evaluation refers to
-      let implUs := attachIds ((pages.flatMap fun (_, p) => match p with | some pg => pg.events | none => []) ++ c.lost.map (·.1.ev)) ((implOut.getD []).filterMap parseUev)
+      let attributed := attributeTo ((pages.flatMap fun (_, p) => match p with | some pg => pg.events | none => []) ++ c.lost.map (·.1.ev)) ((implOut.getD []).filterMap parseUev)
+      let implUs := groundTruth attributed
+      let c := if exit then c else match alteredSpec "the fetch loop (fetchEvents -> handleUnconfirmedEvents -> toUnconfirmedEvent)" attributed c.note with
+               | some s => c.addSpec s | none => c
       let c := if !exit && !implUs.isEmpty && !en then
                  c.addSpec "poller-not-enabled events were delivered to the event loop but the block poller is not enabled (no height tick will ever process them)"
                else c
@@ -698,7 +795,7 @@ def doWheight (st : St) (fs : List String) : St × List String :=
   | some height, some now, some mainT, some hdrT, some reqs, some fwd, some exit, some en =>
     let pan := (kvB fs "panic").getD false
     let o := oracleOf ⟨mainT, hdrT⟩
-    let reqs := splitList reqs ","
+    let (c, reqs) := splitReobsTraffic c (splitList reqs ",")
     let impl := splitList fwd ","
     let cfg := c.cfg
     let before := c.st
@@ -742,7 +839,7 @@ def doWheight (st : St) (fs : List String) : St × List String :=
       | none =>
         let good := cands.filter fun cd => cd.all (·.2)
         if count p impl + count p c.fwdAll > cands.length then
-          some s!"poll-forwarded-twice {p} forwarded {count p impl + count p c.fwdAll} times for {cands.length} delivered event(s) ({good.length} eligible now)"
+          some s!"poll-forwarded-twice {p} forwarded {count p impl + count p c.fwdAll} times for {cands.length} delivered event(s) ({good.length} eligible now){c.dipNote}"
         else none
     let c := match (if pan then some "watcher-panic handleEvents panicked"
                     else if exit && !injected && c.fetch then
@@ -830,6 +927,11 @@ def doWrestart (st : St) (fs : List String) : St × List String :=
   | some reqs, some exit, some en, some fwd =>
     let pan := (kvB fs "panic").getD false
     let late := splitList fwd ","
+    let (c, reqsL) := splitReobsTraffic c (splitList reqs ",")
+    let reqs := if reqsL.isEmpty then "-" else ",".intercalate reqsL
+    let stray := splitList ((kv fs "stray").getD "-") ","
+    let c := if stray.isEmpty then c else
+      c.addSpec s!"reobs-request-requeued when the watcher was stopped its request queue held {stray.length} request(s): {stray.take 4} (chain:transaction) — every request handed to the watcher (one at a time, the harness' barrier request included) had been taken off the queue and handled before, so the watcher put these (back) there itself; the next incarnation of the watcher would find them"
     let c := if pan then c.addSpec "watcher-panic the fetch loop panicked on the first count request after a restart" else c
     let c := if late.isEmpty then c else
       { c.addDiff s!"messages were forwarded outside a height tick (seen at the restart): {late}" with fwdAll := c.fwdAll ++ late }
@@ -868,6 +970,7 @@ def doWreobs (st : St) (fs : List String) : St × List String :=
     | none => match r.owed with
       | some p => c.addSpec s!"reobs-wellformed-event-dropped {p} is the token bridge's message, final, in a canonical block and (attestation) equal to what the token contract reports in this call; every node request succeeded, yet the re-observation request did not hand it to the signer"
       | none => c
+  let c := match r.requeued with | some s => c.addSpec s | none => c
   let c := match r.diff with | some d => c.addDiff d | none => c
   let c := { c with reobsFwd := c.reobsFwd ++ splitList ((kv fs "fwd").getD "-") "," }
   ({ st with c := c, reobsFwd := st.reobsFwd + r.nFwd, wreobs := st.wreobs + 1 }, [])
